@@ -114,9 +114,12 @@ class LoopMixin(StmtMixin):
         self.ctx.loops.append((fi.qualname if fi else "?", k, "I"))
         # 3. guard; the body re-establishes the invariant; the exit states go on
         out = []
+        heap_in, events_in = dict(st.heap), len(st.events)
         for y, taken in self.exec_guard(s.test, st):
             if y.status != "run":
                 raise Unsupported("invariant rule: the loop guard does not evaluate normally")
+            if len(y.events) != events_in or any(y.heap.get(r) is not h for r, h in heap_in.items()):
+                raise Unsupported("invariant rule: the loop guard has side effects")
             if not taken:
                 out.append(y)
                 continue
@@ -127,6 +130,8 @@ class LoopMixin(StmtMixin):
                 for r, h in heap0.items():
                     if z.heap.get(r) is not h:
                         raise Unsupported("invariant rule: the loop body changes the heap")
+                if len(z.events) != events_in:
+                    raise Unsupported("invariant rule: the loop body performs observable calls")
                 for n in names:
                     if self._scalar_type(self.force(z, z.frame.env[n])) != types0[n]:
                         raise Unsupported(f"invariant rule: loop-carried variable '{n}' changes its type in the body")
